@@ -71,6 +71,9 @@ B_form == <<98, 61, 49>>    \* 'b=1'
 B_ab == <<97, 98>>    \* 'ab'
 B_cd == <<99, 100>>    \* 'cd'
 B_e9 == <<233, 0, 255>>    \* 'é\x00ÿ'
+N_ctlow == <<99, 111, 110, 116, 101, 110, 116, 45, 116, 121, 112, 101>>    \* 'content-type'
+N_clup == <<67, 79, 78, 84, 69, 78, 84, 45, 76, 69, 78, 71, 84, 72>>    \* 'CONTENT-LENGTH'
+N_srvlow == <<115, 101, 114, 118, 101, 114>>    \* 'server'
 R_ok == <<79, 75>>    \* 'OK'
 R_nf == <<78, 111, 116, 32, 70, 111, 117, 110, 100>>    \* 'Not Found'
 R_nm == <<78, 111, 116, 32, 77, 111, 100, 105, 102, 105, 101, 100>>    \* 'Not Modified'
@@ -107,7 +110,10 @@ FullApps ==
           [App0 EXCEPT !.code = 304, !.reason = R_nm, !.chunks = <<>>]}
     \cup {[App0 EXCEPT !.hdrs = hs] : hs \in {<<H(N_ct, V_plain)>>, <<H(N_cl, V_2)>>, <<H(N_srv, V_mine)>>,
                                                <<H(N_xa, V_1), H(N_b, V_2), H(N_xa, V_3)>>,
-                                               <<H(N_xalow, V_1), H(N_ct, V_plain), H(N_cl, V_2), H(N_srv, V_mine)>>}}
+                                               <<H(N_xalow, V_1), H(N_ct, V_plain), H(N_cl, V_2), H(N_srv, V_mine)>>,
+                                               (* other spellings of the default headers' names: present is present *)
+                                               <<H(N_ctlow, V_plain)>>, <<H(N_clup, V_2)>>, <<H(N_srvlow, V_mine)>>,
+                                               <<H(N_srvlow, V_mine), H(N_clup, V_2), H(N_ctlow, V_plain)>>}}
 SmallApps == {App0, [App0 EXCEPT !.hdrs = <<H(N_xa, V_1), H(N_b, V_2), H(N_xa, V_3)>>, !.chunks = <<B_ab, B_cd>>],
               [App0 EXCEPT !.code = 404, !.reason = R_nf, !.hdrs = <<H(N_ct, V_plain)>>]}
 Apps == IF AppSel = 1 THEN FullApps ELSE SmallApps
